@@ -168,6 +168,10 @@ func (table *Table) Encode() []byte {
 		}
 	}
 
+	if glyphClassDefOffset > 0xFFFF || markAttachClassDefOffset > 0xFFFF || markGlyphSetsDefOffset > 0xFFFF {
+		panic("GDEF table too large")
+	}
+
 	buf := make([]byte, 12, total)
 	// We always write table version 1.0:
 	buf[0] = byte(version >> 24)
